@@ -51,7 +51,7 @@ def list_contracts():
 def check_property(prop, tier="quick", jobs=None, verbose=False):
     t0 = time.time()
     seed = int(os.environ.get("VERIF_SEED", "0") or 0)
-    evid_path = os.path.join(VERIF, "evidence", prop + ".json")
+    evid_path = os.path.join(os.environ.get("PYVC_OUT_DIR", VERIF), "evidence", prop + ".json")
     os.makedirs(os.path.dirname(evid_path), exist_ok=True)
     try:
         if os.path.exists(evid_path):
@@ -164,7 +164,7 @@ def _check(prop, tier, jobs, verbose, seed, t0, evid_path):
     seen_names = set()
     # prefer small bounded witnesses
     refuted.sort(key=lambda ro: (ro[0]["mode"] == "unbounded", sum((ro[0]["shape"] or {}).values()) if ro[0]["shape"] else 0))
-    replay_dir = os.path.join(VERIF, "replays", prop)
+    replay_dir = os.path.join(os.environ.get("PYVC_OUT_DIR", VERIF), "replays", prop)
     for r, ob in refuted:
         if ob["name"] in seen_names:
             continue
